@@ -3,15 +3,28 @@
    Quantification: every request (method, path, query, body), every outcome of the abstract parsers
    (cleanPath, url, go-path, cid, AddParamsFromQuery, importer), every RPC failure script, every daemon answer.
    The routing table is the one regenerated from api/ipfsproxy/ipfsproxy.go at this run (Gen/ProxyRoutes.v). *)
-From V Require Import Base.Common Base.C11_Http Gen.ProxyRoutes Model.C12_Proxy Model.C12_Check Proofs.C12_Proxy Proofs.C12_Monitor.
+From V Require Import Base.Common Base.C11_Http Base.C11_RouteOrder Gen.ProxyRoutes Model.C12_Proxy Model.C12_Check Model.C12_Tables Proofs.C12_Proxy Proofs.C12_Monitor.
 Open Scope string_scope.
 Open Scope list_scope.
 
-(* the generated table is the seven listed paths (three of them also with a /{arg} form) under POST/GET/PUT, plus the catch-all *)
+(* the generated table is the seven listed paths (three of them also with a /{arg} form) under POST/GET/PUT, plus the catch-all.
+   Changed (w13): the first conjunct used to be the list equality `compile_routes hijack_prefix hijack_routes = expand spec_paths`.
+   gorilla/mux takes the first registered route that matches, so registration order matters only between routes that some
+   path can match both; the list equality also broke on a behaviour-preserving reorder (e.g. "/pin/add" registered before
+   "/pin/add/{arg}": different lengths, no common path). `croutes_equiv` (Model/C12_Tables.v) holds iff the second table is a
+   permutation of the first in which every two routes that are not apart (templates not provably disjoint, tpl_disjoint)
+   keep their relative order; the second conjunct (both tables classify every path alike) is what the later theorems use. *)
 Theorem proxy_table_spec :
-  compile_routes hijack_prefix hijack_routes = expand spec_paths /\ hijack_methods = spec_methods /\ catch_all = [("/", "reverseProxy")].
-Proof. exact (conj table_compiles (conj methods_are catch_all_is)). Qed.
+  croutes_equiv (compile_routes hijack_prefix hijack_routes) (expand spec_paths) = true
+  /\ (forall segs, first_match (compile_routes hijack_prefix hijack_routes) segs = first_match (expand spec_paths) segs)
+  /\ hijack_methods = spec_methods /\ catch_all = [("/", "reverseProxy")].
+Proof. exact (conj table_compiles (conj table_first_match (conj methods_are catch_all_is))). Qed.
 Print Assumptions proxy_table_spec.
+
+(* the general fact behind it, for tables of any size: equivalent tables classify every path alike *)
+Theorem proxy_routes_equiv_dispatch rs1 rs2 : croutes_equiv rs1 rs2 = true -> forall segs, first_match rs1 segs = first_match rs2 segs.
+Proof. exact (croutes_equiv_first_match rs1 rs2). Qed.
+Print Assumptions proxy_routes_equiv_dispatch.
 
 (* every error responder of every hijack handler is followed by a return (generated from the handler bodies) *)
 Theorem proxy_error_sites_return : forallb (fun hs => forallb (fun b => b) (snd hs)) handler_error_sites = true.
